@@ -152,3 +152,79 @@ def check_predicate_results(run, funcs, rule='R20'):
                         else:
                             run.holds(rule, f.key, 'predicate result ' + x.id, 'used as a truth value', f=f, node=x, nontrivial=False)
     return n
+
+
+DUAL_MODE = {'transl': 3, 'transl2': 2}
+
+
+def check_dual_mode_calls(run, funcs, rule='R20'):
+    """transl / transl2 are dual-mode: given ONE argument they BUILD a homogeneous matrix from a k-vector but EXTRACT the translation
+    (a k-vector) from a (k+1)x(k+1) matrix.  In a method of a pose class a one-argument call must therefore be reached only
+    where the argument is known to be a k-vector (isvector(a, k) / len(a) == k holds on every path, or a is a row of an array whose
+    shape[1] == k is established): otherwise a matrix that the validating import has just rejected reaches the call, and the
+    extracted k-vector is stored as the value of the object."""
+    from ..cfg import reaching_defs
+    n = 0
+    for f in funcs:
+        if f.cls is None:
+            continue
+        fi = FuncInfo.of(f)
+        calls = []
+        for c in own_walk(f.node):
+            if isinstance(c, ast.Call) and len(c.args) == 1 and not c.keywords:
+                cc = canon(fi, c, inline=False)
+                if isinstance(cc, ast.Call) and isinstance(cc.func, ast.Name) and cc.func.id in DUAL_MODE:
+                    calls.append((c, cc.func.id))
+        if not calls:
+            continue
+        cfg = CFG(f.node)
+        facts = must_facts(cfg)
+        parents = {}
+        for x in ast.walk(f.node):
+            for ch in ast.iter_child_nodes(x):
+                parents[id(ch)] = x
+        for (c, fn) in calls:
+            k = DUAL_MODE[fn]
+            a = c.args[0]
+            n += 1
+            construct = '%s(%s)' % (fn, src(a, 30))
+            # the statement node holding the call
+            st = c
+            while st is not None and cfg.node_of(st) is None:
+                st = parents.get(id(st))
+            node = cfg.node_of(st) if st is not None else None
+            fs = facts.get(node.id, frozenset()) if node is not None else frozenset()
+            if isinstance(a, (ast.List, ast.Tuple)) or (isinstance(a, ast.Subscript) and isinstance(a.slice, ast.Slice)):
+                run.holds(rule, f.key, construct, 'the argument is a display / slice: a vector by construction', f=f, node=c)
+                continue
+            if not isinstance(a, ast.Name):
+                run.undecided(rule, f.key, construct, 'argument of the dual-mode call is not a plain name', f=f, node=c)
+                continue
+            ok = None
+            for fc in fs:
+                e = fc[2].ast
+                for pat in ('isvector(%s, %d)' % (a.id, k), 'base.isvector(%s, %d)' % (a.id, k), 'argcheck.isvector(%s, %d)' % (a.id, k),
+                            'len(%s) == %d' % (a.id, k)):
+                    if fc[1] and matches(pat, e) is not None:
+                        ok = 'guarded by ' + src(e, 40)
+            if ok is None:
+                # a comprehension / loop target ranging over the rows of an array with shape[1] == k
+                p_ = parents.get(id(c))
+                while p_ is not None and not isinstance(p_, (ast.ListComp, ast.For)):
+                    p_ = parents.get(id(p_))
+                gens = p_.generators if isinstance(p_, ast.ListComp) else ([p_] if isinstance(p_, ast.For) else [])
+                for g in gens:
+                    if isinstance(g.target, ast.Name) and g.target.id == a.id and isinstance(g.iter, ast.Name):
+                        for fc in fs:
+                            if fc[1] and matches('%s.shape[1] == %d' % (g.iter.id, k), fc[2].ast) is not None:
+                                ok = 'a row of %s, whose shape[1] == %d' % (g.iter.id, k)
+                        if ok is None and matches('getvector(_X)', canon(fi, g.iter, inline=False)) is not None:
+                            ok = 'an element of a vector'
+            if ok is not None:
+                run.holds(rule, f.key, construct, 'the argument is a %d-vector: %s' % (k, ok), f=f, node=c)
+            else:
+                run.violation(rule, f.key, construct, '%s is dual-mode: for a %dx%d matrix argument it returns the translation %d-vector instead of '
+                              'building a matrix. No test on the paths to this call establishes that %s is a %d-vector (isvector(%s, %d) / '
+                              'len(%s) == %d): a %dx%d array rejected by the validating import reaches it and the extracted vector is '
+                              'stored as the value of the object' % (fn, k + 1, k + 1, k, a.id, k, a.id, k, a.id, k, k + 1, k + 1), f=f, node=c)
+    return n
